@@ -56,7 +56,10 @@ def coeffs(K, M, rot=0):
 
 
 GEOMS = ["coincident", "generic", "z", "far12x", "tail28", "x", "y", "far", "far20z", "far33y", "tail22", "tail25", "tail31", "tail34",
-         "closeT", "near05", "nearfar"]
+         "closeT", "near05", "nearfar", "sumzero"]
+# sumzero: a symmetric layout (square-planar / octahedral neighbours): the displacement (0.75, -0.75, 0) has
+# components that sum to EXACTLY zero; the caller puts centre A on dyadic coordinates so that this is exact
+SUMZERO_A = (0.25, -0.5, 0.75)
 # nearfar: the two centres 3e-4 bohr apart (a ghost / displaced-geometry centre) AND the pair ~60 bohr from the
 # coordinate origin (the caller adds FAR_OFFSET to both): distinct centres that a relative-tolerance test confuses
 FAR_OFFSET = (40.0, -35.0, 30.0)
@@ -76,6 +79,8 @@ def displacement(geom, tag="d", mu=None, mu_max=None):
         return tuple(R * v / n for v in u)
     if geom == "coincident":
         return (0.0, 0.0, 0.0)
+    if geom == "sumzero":
+        return (0.75, -0.75, 0.0)
     if geom in ("closeT", "near05", "nearfar"):
         # nearly coincident centres (same basis at a slightly displaced geometry): closeT puts the TIGHTEST primitive
         # pair at mu R^2 = 1.3 so that tight-tight products still carry weight; near05 is 0.05 bohr
